@@ -129,6 +129,22 @@ func GenProgram(r *core.Rand, o SemOpts) *Program {
 		}
 		g.p.Files = append(g.p.Files, &File{Path: d + "/" + base + ".thrift"})
 	}
+	// versioned siblings: <dir>/v2.thrift and <dir>/v3.thrift, both included by the root
+	siblings := false
+	if o.PkgNameClash && nf >= 3 && !o.ChainMode && r.Chance(1, 4) {
+		d := path.Dir(g.p.Files[1].Path)
+		free := true
+		for k, f := range g.p.Files {
+			if k != 1 && k != 2 && (f.Path == d+"/v2.thrift" || f.Path == d+"/v3.thrift") {
+				free = false
+			}
+		}
+		if free {
+			g.p.Files[1].Path, g.p.Files[2].Path = d+"/v2.thrift", d+"/v3.thrift"
+			siblings = g.include(g.p.Files[0], g.p.Files[1]) && g.include(g.p.Files[0], g.p.Files[2])
+		}
+	}
+	_ = siblings
 	// include graph: every file but the first has an includer with a smaller
 	// index; extra forward edges at random; back edges only when cycles are allowed
 	if o.ChainMode {
